@@ -254,7 +254,7 @@ func (so *Sorts) typeInv(t types.Type, term string) string {
 			return fmt.Sprintf("(and (<= %s %s) (<= %s %s))", lo, term, term, hi)
 		}
 	case *types.Slice:
-		return fmt.Sprintf("(and (<= 0 (sl_arr %s)) (<= 0 (sl_off %s)) (<= 0 (sl_len %s)) (<= (sl_len %s) (sl_cap %s)) (=> (= (sl_arr %s) 0) (= (sl_cap %s) 0)))", term, term, term, term, term, term, term)
+		return fmt.Sprintf("(and (<= 0 (sl_arr %s)) (<= 0 (sl_off %s)) (<= 0 (sl_len %s)) (<= (sl_len %s) (sl_cap %s)) (<= (sl_cap %s) 9223372036854775807) (=> (= (sl_arr %s) 0) (= (sl_cap %s) 0)))", term, term, term, term, term, term, term, term)
 	case *types.Pointer, *types.Map, *types.Signature, *types.Chan:
 		return fmt.Sprintf("(<= 0 %s)", term)
 	case *types.Struct:
@@ -266,6 +266,31 @@ func (so *Sorts) typeInv(t types.Type, term string) string {
 			}
 		}
 		if len(parts) > 0 {
+			return "(and " + strings.Join(parts, " ") + ")"
+		}
+	}
+	return ""
+}
+
+// allocInv: every reference held in a value of type t is at most the allocation counter.
+func (so *Sorts) allocInv(t types.Type, term, alloc string) string {
+	switch u := t.Underlying().(type) {
+	case *types.Pointer, *types.Map, *types.Signature, *types.Interface, *types.Chan:
+		return "(<= " + term + " " + alloc + ")"
+	case *types.Slice:
+		return "(<= (sl_arr " + term + ") " + alloc + ")"
+	case *types.Struct:
+		si := so.structOf(t)
+		var parts []string
+		for i := 0; i < u.NumFields(); i++ {
+			if inv := so.allocInv(u.Field(i).Type(), fmt.Sprintf("(%s %s)", si.Fields[i], term), alloc); inv != "" {
+				parts = append(parts, inv)
+			}
+		}
+		if len(parts) == 1 {
+			return parts[0]
+		}
+		if len(parts) > 1 {
 			return "(and " + strings.Join(parts, " ") + ")"
 		}
 	}
